@@ -24,6 +24,7 @@ RULE = ('cases = random G-SN networks (C03 grammar, blocks invoked once or twice
         'margin.  Non-trivial: a block with >= 2 branches of different cost and non-uniform '
         'coefficients; distinct = hash of (network, coefficients, mode, metric, full_cost).')
 RULE += ('  Round 3: a quarter of the cases wrap a seed network that had already been wrapped (and costed) with an input of another resolution.')
+RULE += ('  Round 4b/5: fixed layers invoked twice; coefficients tied at the maximum (uniform initial values, two leaders) in a fifth of the cases.')
 ASSUMPTIONS = [
     'theta is read from the combiner after the forward pass (the currently sampled coefficients)',
     'float32 cost values are compared with relative slack 1e-5',
@@ -87,7 +88,24 @@ def run_case(case, ctx):
     sn.update_softmax_options(temperature=temp)
     crng = random.Random(case['seed'])
     cmb = dict(snlib.combiners(sn))
-    if mode in ('hard',) or crng.random() < 0.5:
+    if (case['seed'] // 7) % 5 == 4:
+        # "any coefficient values": exact ties at the maximum - the uniform initial coefficients
+        # (an untrained / warming-up SuperNet) or two unseparated leaders
+        alphas = {}
+        for st in blocks:
+            c = cmb[st['name'] + '.sn_combiner']
+            n = c.alpha.numel()
+            if crng.random() < 0.5:
+                vals = [1.0 / n] * n
+            else:
+                vals = [crng.uniform(-1.0, 0.5) for _ in range(n)]
+                for i in crng.sample(range(n), min(n, 2)):
+                    vals[i] = 0.75
+            with torch.no_grad():
+                c.alpha.data.copy_(torch.tensor(vals))
+            alphas[st['name']] = vals
+        ctx.cls('coefficients-tied-at-the-maximum')
+    elif mode in ('hard',) or crng.random() < 0.5:
         winners = [crng.randrange(len(st['branches'])) for st in blocks]
         alphas = snlib.set_winners(sn, desc, winners, crng)
     else:
